@@ -264,15 +264,36 @@ def far_family(rng):
     return items
 
 
+def presentation(rng, items, idx):
+    """how the same structure is handed to the assembler: canonical text; accepted syntax variations and CR LF line ends;
+    a labels table that is re-used from an earlier build (stale values of the same names, in another order) plus an
+    external symbol"""
+    from ..gen import variants
+    lines = P.render(items)
+    eol = '\n'
+    preseed = None
+    mode = idx % 6
+    if mode == 1:
+        lines = variants.vary(rng, items, lines)
+        eol = rng.choice(['\n', '\r\n'])
+    elif mode == 2:
+        names = [it['name'] for it in items if it['k'] == 'label']
+        rng.shuffle(names)
+        preseed = {'labels': dict([(n, rng.randrange(0, 5000) * 2) for n in names] + [('EXT_SYM', 0x20000000)])}
+    return lines, eol, preseed
+
+
 def run_random(asm, acc, seed, idx, trace=False):
     rng = random.Random('c03-rand-%d-%d' % (seed, idx))
     items = far_family(rng) if idx % 8 == 5 else randprog.gen(rng, CFG)
+    lines, eol, preseed = presentation(rng, items, idx)
+    core.see(acc, 'presentations', ['canonical', 'syntax-variants', 'reused-label-table'][min(idx % 6, 3) if idx % 6 < 3 else 0])
     for compress in (False, True):
         acc['n'] += 1
         rcase = {'kind': 'rand', 'seed': seed, 'idx': idx, 'compress': compress}
         if trace:
             with monitors.PassTrace(asm) as tr:
-                ex = progcheck.examine(asm, items, compress, seed=idx)
+                ex = progcheck.examine(asm, items, compress, seed=idx, lines=lines, eol=eol, preseed=preseed)
             moved = set(tr.passes_that_moved_labels())
             acc['ctr']['traced_programs'] += 1
             if len(moved) >= 3:
@@ -280,7 +301,7 @@ def run_random(asm, acc, seed, idx, trace=False):
             for p in moved:
                 core.see(acc, 'passes_that_moved_labels', p)
         else:
-            ex = progcheck.examine(asm, items, compress, seed=idx)
+            ex = progcheck.examine(asm, items, compress, seed=idx, lines=lines, eol=eol, preseed=preseed)
         if not ex.ok:
             acc['ctr']['random_refused'] += 1
             acc['ctr']['random_refused:' + ex.exc['msg'][:36]] += 1
